@@ -255,7 +255,7 @@ func bulkPlans(thorough bool) [][3]int {
 	for _, s := range extraSizes() {
 		for _, n := range []int{s + 2, 2*s + 3, 4*s + 5} {
 			// the Lean models are list based (quadratic in the run length): keep the big runs affordable
-			if n > 70000 || (n > 40000 && n != s+2) {
+			if n > 40000 || (n > 20000 && n != s+2) {
 				continue
 			}
 			out = append(out, [3]int{n, n - n/4 + 1, 5}, [3]int{n, s + 404, n}, [3]int{n, n/2 - 3, n / 2})
